@@ -40,6 +40,9 @@ class AsyncSocket(base_socket.BaseSocket):
                                 self.sid, packet_name,
                                 pkt.data if not isinstance(pkt.data, bytes)
                                 else '<binary>')
+        if self.closing or self.closed:
+            # nothing is dispatched once the disconnect event has fired
+            raise exceptions.SocketIsClosedError()
         if pkt.packet_type == packet.PONG:
             self.schedule_ping()
         elif pkt.packet_type == packet.MESSAGE:
